@@ -157,10 +157,6 @@ def module(ctx, full):
     return mod
 
 
-def _name(x):
-    return x[2].get("name")
-
-
 def expected_module(full, m=None):
     """header, every global instruction (OpConstant typed, after all of types_global_values was tracked), then per function its
     definition, parameters, per block label and instructions (OpExtInst named, after all imports were tracked), end"""
